@@ -284,3 +284,23 @@ def int_to_decimal_str_of(node):
             and len(node.args) == 1 and not node.keywords:
         return node.args[0]
     return None
+
+
+def prefixed_int_str_of(node, prefix):
+    """X if node renders  prefix + <decimal of the integer X>:  "p%d" % X, f"p{X}", f"p{X:d}", "p{}".format(X), "p" + str(X)"""
+    if isinstance(node, ast.BinOp) and isinstance(node.op, ast.Mod) and isinstance(node.left, ast.Constant) \
+            and node.left.value in (prefix + "%d", prefix + "%s", prefix + "%i"):
+        r = node.right
+        if isinstance(r, ast.Tuple) and len(r.elts) == 1:
+            r = r.elts[0]
+        return None if isinstance(r, ast.Tuple) else r
+    if isinstance(node, ast.JoinedStr) and len(node.values) == 2 and isinstance(node.values[0], ast.Constant) \
+            and node.values[0].value == prefix and isinstance(node.values[1], ast.FormattedValue):
+        return int_to_decimal_str_of(ast.JoinedStr(values=[node.values[1]]))
+    if isinstance(node, ast.Call) and isinstance(node.func, ast.Attribute) and node.func.attr == "format" \
+            and isinstance(node.func.value, ast.Constant) and node.func.value.value in (prefix + "{}", prefix + "{:d}", prefix + "{0}") \
+            and len(node.args) == 1 and not node.keywords:
+        return node.args[0]
+    if isinstance(node, ast.BinOp) and isinstance(node.op, ast.Add) and isinstance(node.left, ast.Constant) and node.left.value == prefix:
+        return int_to_decimal_str_of(node.right)
+    return None
